@@ -105,7 +105,7 @@ def main : IO Unit := runDriver fun
     | "length", [n, fresh, k, tail, nn] =>
       match n.toNat?, fresh.toNat?, k.toNat?, parseTail tail, parseArg nn with
       | some n, some fresh, some k, some tail, some nn =>
-        showRes n (showLen fresh) (length memCap n fresh ⟨k, tail⟩ nn)
+        showRes n (showLen fresh) (length true memCap n fresh ⟨k, tail⟩ nn)
       | _, _, _, _, _ => "bad-args"
     | "length_spec", [n, fresh, k, tail, nn] =>
       match n.toNat?, fresh.toNat?, k.toNat?, parseTail tail, parseArg nn with
